@@ -468,9 +468,10 @@ def i_POP(i, fmap):
 def i_PUSH(i, fmap):
     npc = fmap(pc) + i.length
     fmap[pc] = npc
-    x = fmap(stkptr + 1)
-    fmap[stkptr] = x
-    fmap[mem(x, 21, seg="rstack")] = npc
+    # a mem key's address is evaluated by the map itself: it gets the unevaluated
+    # address, and before stkptr changes
+    fmap[mem(stkptr + 1, 21, seg="rstack")] = npc
+    fmap[stkptr] = fmap(stkptr + 1)
     fmap[tos] = npc
 
 
